@@ -95,6 +95,7 @@ def register(gen, T):
                    "  | plain (k : LitKind)          -- Literal::k(v) with the same value\n"
                    "  | widen (k : LitKind)          -- Literal::k(v as u64 / u64::from(v))\n"
                    "  | negMinus (k : LitKind)       -- Minus(Literal::k(-v as u64)), `-v` computed in the constant's own width\n"
+                   "  | negMinusAbs (k : LitKind)    -- Minus(Literal::k(u64::from(v.unsigned_abs()))): total\n"
                    "  | panics\n"
                    "  | enumLookup\n"
                    "  deriving DecidableEq, Repr, Inhabited\n\n")
@@ -118,7 +119,7 @@ def register(gen, T):
             else:
                 m = re.fullmatch(r'ast::Literal::([A-Za-z0-9]+)\((.*)\)', r)
                 mneg = re.search(r'return Ok\(ast::Expression::UnaryOperation\( ast::UnaryOp::Minus, Box::new\(Located::none\('
-                                 r'ast::Expression::Literal\( ast::Literal::([A-Za-z0-9]+)\(-v as u64\), \)\)\), \)\);', r)
+                                 r'ast::Expression::Literal\( ast::Literal::([A-Za-z0-9]+)\((-v as u64|u64::from\(v\.unsigned_abs\(\)\))\), \)\)\), \)\);', r)
                 if m and m.group(1) in lits:
                     inner = m.group(2)
                     if inner == "v":
@@ -128,7 +129,7 @@ def register(gen, T):
                     else:
                         raise ExtractError(f"generate_literal: literal payload {inner!r}")
                 elif mneg and mneg.group(1) in lits:
-                    arm = f".negMinus .{mneg.group(1)}"
+                    arm = (".negMinus" if mneg.group(2) == "-v as u64" else ".negMinusAbs") + f" .{mneg.group(1)}"
                 else:
                     raise ExtractError(f"generate_literal: result {r[:80]!r} unsupported")
                 gk = None
